@@ -26,6 +26,17 @@ FAMILY = {'clipperD': 'clipperD', 'clipperD_tree': 'clipperD', 'booleanop': 'boo
 POW2_ENTRIES = {'clipperD', 'clipperD_tree', 'booleanop', 'booleanop_tree', 'intersect', 'union', 'difference', 'xor', 'union1'}
 
 
+def viol(ctx, key, what, replay=None, nofail=False):
+    """record the first occurrence of each key as the violation (with its replay); count the rest
+    (vf.Ctx keeps at most 50 entries, one VIOLATION line per key)"""
+    seen = ctx.__dict__.setdefault('_seen_keys', {})
+    seen[key] = seen.get(key, 0) + 1
+    ctx.hist('violations_by_key', key)
+    if seen[key] == 1:
+        return ctx.violation(key, what, replay=replay, nofail=nofail)
+    return False
+
+
 # ----------------------------------------------------------------------------- doubles <-> text
 def fhex(x):
     """python float -> token understood by strtod and by the oracle"""
@@ -346,7 +357,7 @@ def judge(ctx, rec, where='gen'):
     c, D, M = rec['case'], rec['D'], rec['M']
     fam = FAMILY[c.entry]
     if rec.get('crashed') or D.kind == 'ERR':
-        ctx.violation('%s.crash' % fam, '%s: the PathsD entry point crashed or produced no result line on %s'
+        viol(ctx, '%s.crash' % fam, '%s: the PathsD entry point crashed or produced no result line on %s'
                       % (c.entry, c.body()[:300]), replay=c.to_json())
         return False
     if M.kind == 'ERR':
@@ -356,7 +367,7 @@ def judge(ctx, rec, where='gen'):
         return False
     for r in (D, rec.get('IM'), rec.get('IS')):
         if r is not None and r.kind == 'OK' and r.ret == 0:
-            ctx.violation('%s.execute-false' % fam, 'Execute returned false on %s' % c.body()[:300], replay=c.to_json())
+            viol(ctx, '%s.execute-false' % fam, 'Execute returned false on %s' % c.body()[:300], replay=c.to_json())
     # (a) property: D == descale(entry64(spec scaled inputs))
     ok_prop = None
     if M.spec is None:
@@ -381,7 +392,7 @@ def judge(ctx, rec, where='gen'):
                     model_explains = True
                     how = 'scaled-arguments-differ'
             key = '%s.%s' % (fam, how)
-            ctx.violation(key, '%s(precision %d): result differs from descale(entry64(scale inputs)) [%s]%s; D=%s expected=%s'
+            viol(ctx, key, '%s(precision %d): result differs from descale(entry64(scale inputs)) [%s]%s; D=%s expected=%s'
                           % (c.entry, c.p, why, ' (as the hand model of the wrapper predicts)' if model_explains else '',
                              D.line[:200], put_paths(rec['expS'][0])[:200] if rec.get('expS') else '?'),
                           replay=c.to_json())
@@ -389,12 +400,12 @@ def judge(ctx, rec, where='gen'):
     if M.kind == 'OK' and M.value == 'CALL':
         whyM = compare(D, rec.get('IM'), rec.get('expM'))
         if whyM and ok_prop:
-            ctx.violation('tie-break:%s' % c.entry, 'hand model of %s disagrees with the code but the property holds on this input: %s'
+            viol(ctx, 'tie-break:%s' % c.entry, 'hand model of %s disagrees with the code but the property holds on this input: %s'
                           % (c.entry, whyM), replay=c.to_json(), nofail=True)
         elif whyM and ok_prop is None:
-            ctx.violation('%s.%s' % (fam, whyM), '%s: code differs from its model (%s)' % (c.entry, whyM), replay=c.to_json())
+            viol(ctx, '%s.%s' % (fam, whyM), '%s: code differs from its model (%s)' % (c.entry, whyM), replay=c.to_json())
     elif M.kind == 'THROWN' or M.kind == 'CODE':
-        ctx.violation('%s.valid-input-rejected' % fam, '%s: model reports an error (%s) for an input inside the domain'
+        viol(ctx, '%s.valid-input-rejected' % fam, '%s: model reports an error (%s) for an input inside the domain'
                       % (c.entry, M.line[:80]), replay=c.to_json())
     nontrivial = bool(ok_prop) and D.kind == 'OK' and (any(D.sets[0]) or any(D.sets[1]))
     return nontrivial
@@ -670,7 +681,7 @@ def kernel_tie(ctx, exe, oracle, n):
         if not same:
             bad += 1
             kname = l.split()[0]
-            ctx.violation('kernel.%s' % kname, 'direct call of %s differs from the Coq model: impl=%s model=%s'
+            viol(ctx, 'kernel.%s' % kname, 'direct call of %s differs from the Coq model: impl=%s model=%s'
                           % (kname, h[:160], o[:160]), replay=dict(kernel=l))
     return bad
 
@@ -714,10 +725,10 @@ def libm_check(ctx, exe, oracle):
     if res[0] != 'OK':
         what = res[0]
         if 'ClipperD.scale_' in what or 'invScale_' in what:
-            ctx.violation('clipperD.scale-selection', 'ClipperD scale_/invScale_ is not the smallest power of two above 10^precision: ' + what[:400],
+            viol(ctx, 'clipperD.scale-selection', 'ClipperD scale_/invScale_ is not the smallest power of two above 10^precision: ' + what[:400],
                           replay=dict(libm=line))
         else:
-            ctx.violation('libm.pow10-not-correctly-rounded', 'libm table differs from the model assumptions: ' + what[:400],
+            viol(ctx, 'libm.pow10-not-correctly-rounded', 'libm table differs from the model assumptions: ' + what[:400],
                           replay=dict(libm=line), nofail=True)
         return False
     return True
@@ -752,7 +763,7 @@ def run(ctx):
     try:
         exe, oracle = setup(ctx)
     except vf.BuildFailure as e:
-        ctx.violation('tie-break:cx_scale-build', 'harness no longer builds against the tree: %s' % str(e)[-400:], replay=None, nofail=True)
+        viol(ctx, 'tie-break:cx_scale-build', 'harness no longer builds against the tree: %s' % str(e)[-400:], replay=None, nofail=True)
         return
     n_gen = 1400 if ctx.quick else 12000
     if not pr['ok']:
@@ -794,7 +805,7 @@ def run(ctx):
         'libm pow(10,p) is correctly rounded for p in -12..12 and ilogb/pow(2,n) exact on this platform (checked at run time against the Coq values)',
         'g++ -O1 -ffp-contract=off on x86-64 SSE2 implements IEEE binary64 (self-test against extracted PrimFloat on every run)']
     if not pr['ok'] and not ctx.violations:
-        ctx.violation('proof-break:Properties_C16', 'Properties_C16.vo no longer builds: %s' % (pr['failed'][:1],), replay=dict(log=pr['log'][-1500:]), nofail=True)
+        viol(ctx, 'proof-break:Properties_C16', 'Properties_C16.vo no longer builds: %s' % (pr['failed'][:1],), replay=dict(log=pr['log'][-1500:]), nofail=True)
 
 
 def replay(ctx, path):
@@ -807,7 +818,7 @@ def replay(ctx, path):
         ctx.log('impl : ' + h[:400]); ctx.log('model: ' + o[:400])
         H, O = Res(h), Res(o)
         if not (H.kind == O.kind == 'OK' and H.ec == O.ec and sets_bits(H.sets) == sets_bits(O.sets)):
-            ctx.violation(d.get('key', 'kernel'), 'kernel differs from model', replay=rp)
+            viol(ctx, d.get('key', 'kernel'), 'kernel differs from model', replay=rp)
         return
     if 'libm' in rp:
         libm_check(ctx, exe, oracle)
